@@ -16,7 +16,7 @@ Proof. exact no_continue_for_http_1_0. Qed.
 
 (* a Content-Length request whose head alone has arrived asks for the interim response *)
 Example C15_example_content_length :
-  let cfg := mk_rcfg (mk_limits 8190 8 100 65534 1024 8 65534 65534 false) 1048576 1048576 true true in
+  let cfg := mk_rcfg (mk_limits 8190 8 100 65534 1024 8 65534 65534 false) 1048576 1048576 true true false in
   let head := [80;79;83;84;32;47;32;72;84;84;80;47;49;46;49;13;10;72;111;115;116;58;32;104;13;10;
                67;111;110;116;101;110;116;45;76;101;110;103;116;104;58;32;53;13;10;
                69;120;112;101;99;116;58;32;49;48;48;45;99;111;110;116;105;110;117;101;13;10;13;10] in
